@@ -27,7 +27,7 @@
     documented exceptions aside) is established by the exhaustive single-fault
     enumeration against this model (vlib/c18.py). *)
 From Coq Require Import List NArith ZArith String Bool Arith.
-From Kismet Require Import Pure.Hash FS.Fs FS.Prog Spec.Wp Ops.Ops Conc.Pool Conc.Effect Conc.Immut Proofs.NeverMasked Seq.Plain Proofs.KvSeq Proofs.NoPanic Proofs.LookupErrors.
+From Kismet Require Import Pure.Hash FS.Fs FS.Prog Spec.Wp Ops.Ops Conc.Pool Conc.Effect Conc.Immut Proofs.NeverMasked Seq.Plain Proofs.KvSeq Proofs.NoPanic Proofs.LookupErrors Proofs.MaintErrors Proofs.TouchErrors.
 Import ListNotations.
 
 Theorem C18_set_success_means_published : forall cfg k v w o,
@@ -113,6 +113,49 @@ Theorem C18_lookup_error_monitor_meaning : forall p,
   le_step false (EvCall (COpen p RDONLY) (RErr EIO)) = Some true /\ le_step false (EvCall (COpen p RDONLY) (RErr EACCES)) = Some true /\
   le_step false (EvCall (COpen p RDONLY) (RErr EMFILE)) = Some true.
 Proof. intros. repeat split. Qed.
+
+(** Maintenance reports errors (all responses): a prune that returns a result has received no
+    error other than an absence from its opendir, its readdir, any stat of its scan, any unlink
+    of a victim or any futimens of a re-stamp; an error it does return was an absence only if no
+    other kind was seen.  An I/O error at a stat is never read as "the entry vanished". *)
+Theorem C18_maintenance_reports_errors : forall dir cap s,
+  wp me_step (prune dir cap)
+     (fun r s' => match r with Ok _ => s' = s | Err e => is_absent e = true -> s' = s | Panic => True end) s.
+Proof. exact maintenance_reports_errors. Qed.
+
+Theorem C18_maintenance_reports_errors_on_every_run : forall dir cap w o,
+  let '(r, _, _, tr) := run (prune dir cap) w o in
+  match r with Ok _ => mon_run me_step false tr = Some false | _ => True end.
+Proof. exact maintenance_reports_errors_run. Qed.
+
+Theorem C18_maintenance_error_monitor_meaning : forall p fd a m s,
+  me_step false (EvCall (CStat p false) (RErr ENOENT)) = Some false /\ me_step false (EvCall (CStat p false) (RErr ESTALE)) = Some false /\
+  me_step s (EvCall (CStat p false) (RErr EIO)) = Some true /\ me_step s (EvCall (CStat p false) (RErr EACCES)) = Some true /\
+  me_step s (EvCall (CUnlink p) (RErr EIO)) = Some true /\ me_step s (EvCall (COpenDir p) (RErr EMFILE)) = Some true /\
+  me_step s (EvCall (CFutimens fd a m) (RErr EIO)) = Some true /\ me_step false (EvCall (CUnlink p) (RErr ENOENT)) = Some false.
+Proof. intros. repeat split; apply me_monitor_meaning; reflexivity. Qed.
+
+(** Touches report errors (any depth, all responses): a touch that returns a result - marked or
+    "no such entry" - has received no error other than an absence at the last open it tried for
+    an entry or at a futimens. *)
+Theorem C18_touches_report_errors : forall cfg k s,
+  wp te_step (cache_touch cfg k)
+     (fun r s' => match r with Ok _ => s' = s | Err e => is_absent e = true -> s' = s | Panic => True end) s.
+Proof. exact touches_report_errors. Qed.
+
+Theorem C18_touches_report_errors_on_every_run : forall cfg k w o,
+  let '(r, _, _, tr) := run (cache_touch cfg k) w o in
+  match r with Ok _ => mon_run te_step false tr = Some false | _ => True end.
+Proof. exact touches_report_errors_run. Qed.
+
+Theorem C18_touch_error_monitor_meaning : forall p fd a m s,
+  te_step false (EvCall (COpen p WRONLY) (RErr ENOENT)) = Some false /\
+  te_step s (EvCall (COpen p RDONLY) (RErr EIO)) = Some s /\
+  te_step s (EvCall (COpen p WRONLY) (RErr EIO)) = Some true /\
+  te_step s (EvCall (COpen p WRONLY) (RErr EMFILE)) = Some true /\
+  te_step s (EvCall (CFutimens fd a m) (RErr EACCES)) = Some true /\
+  te_step false (EvCall (CFutimens fd a m) (RErr ESTALE)) = Some false.
+Proof. intros. repeat split; apply te_monitor_meaning; reflexivity. Qed.
 
 (** For arbitrary results, not only those a run of the model produces. *)
 Theorem C18_never_masked_all_responses : forall cfg k v, pubs (cache_set cfg k v) /\ pubs (cache_put cfg k v).
